@@ -119,28 +119,46 @@ RowStep(acc, r, snap) ==
 RECURSIVE FoldRows(_, _, _, _)
 FoldRows(acc, rows, n, snap) == IF n > Len(rows) THEN acc ELSE FoldRows(RowStep(acc, rows[n], snap), rows, n + 1, snap)
 
-Refresh(snap, force) ==
+\* everything one call computes, as a value (TLC evaluates it once per transition, see Refresh)
+Post(k, rg, snap, force) ==
     LET acc0 == [found |-> {0},                                   \* found_hosts.add(connection.endpoint)
-                 k     |-> [known EXCEPT ![0] = snap.local],
+                 k     |-> [k EXCEPT ![0] = snap.local],
                  adds  |-> Zero,
-                 moves |-> IF known[0].loc # snap.local.loc THEN {<<0, known[0].loc, snap.local.loc>>} ELSE {}]
+                 moves |-> IF k[0].loc # snap.local.loc THEN {<<0, k[0].loc, snap.local.loc>>} ELSE {}]
         acc  == FoldRows(acc0, Rows(snap), 1, snap)
-        gone == DOMAIN known \ acc.found                           \* removal pass (:3984-3988)
+        gone == DOMAIN k \ acc.found                               \* removal pass (:3984-3988)
         k1   == [h \in acc.found |-> acc.k[h]]
-        changed == \/ DOMAIN k1 # DOMAIN known
-                   \/ \E h \in DOMAIN k1 \cap DOMAIN known : k1[h].tok # known[h].tok
+        changed == \/ DOMAIN k1 # DOMAIN k
+                   \/ \E h \in DOMAIN k1 \cap DOMAIN k : k1[h].tok # k[h].tok
         rb   == force \/ changed
-    IN /\ known' = k1
+    IN [known |-> k1, added |-> acc.adds, removed |-> [h \in Hosts |-> IF h \in gone THEN 1 ELSE 0],
+        moves |-> acc.moves, rebuilt |-> rb, ring |-> IF rb THEN RingOf(k1) ELSE rg]
+
+Refresh(snap, force) ==
+    \E p \in {Post(known, ring, snap, force)} :
+       /\ known' = p.known
        /\ prev' = known
-       /\ added' = acc.adds
-       /\ removed' = [h \in Hosts |-> IF h \in gone THEN 1 ELSE 0]
-       /\ moves' = acc.moves
-       /\ rebuilt' = rb
-       /\ ring' = IF rb THEN RingOf(k1) ELSE ring
+       /\ added' = p.added
+       /\ removed' = p.removed
+       /\ moves' = p.moves
+       /\ rebuilt' = p.rebuilt
+       /\ ring' = p.ring
        /\ act' = [name |-> "Refresh", snap |-> snap, force |-> force]
 
 Next == \E snap \in Snapshots, force \in Forces : Refresh(snap, force)
 Spec == Init /\ [][Next]_vars
+
+\* Induction instead of depth: RingFresh /\ TypeOK is the inductive invariant.  InitAny starts from *any* metadata
+\* state satisfying it (any set of known hosts containing the control node, any locations and token sets, token map
+\* fresh); with NEXT NextOnce TLC then checks every (state before, snapshot) pair exactly once.  Together with
+\* the run from Init (base case) this covers refresh sequences of every length over the enumerated hosts.
+AllKnown == UNION {{k \in [D -> Infos] : k[0].loc \in LocalLocs} : D \in {X \cup {0} : X \in SUBSET Peers}}
+InitAny == /\ known \in AllKnown
+           /\ ring = RingOf(known)
+           /\ prev = known
+           /\ added = Zero /\ removed = Zero /\ moves = {} /\ rebuilt = FALSE
+           /\ act = [name |-> "Any"]
+NextOnce == act.name # "Refresh" /\ Next
 
 -----------------------------------------------------------------------------
 \* C42, stated on the snapshot
